@@ -30,7 +30,7 @@ ASSUMPTIONS = ["negative case / tracked indices follow Python indexing and are n
 KINDS = [
     "unrelated-wire", "outside-cfg-wire", "case-outputs-disagree", "case-index-out-of-range", "case-built-twice", "cond-exit-unbuilt",
     "exit-row-mismatch", "function-outputs-differ", "poly-call-no-instantiation", "poly-call-wrong-arg-count", "poly-call-no-type-args", "non-function-called",
-    "non-dataflow-wire", "int-wire-in-dfg", "untracked-index", "incomplete-op", "root-as-wire", "non-dataflow-wire-across-blocks",
+    "non-dataflow-wire", "int-wire-in-dfg", "untracked-index", "incomplete-op", "root-as-wire", "non-dataflow-wire-across-blocks", "order-port-as-wire",
 ]
 
 
@@ -58,6 +58,7 @@ def expected(kind):
         "incomplete-op": (IncompleteOp,),
         "root-as-wire": (NoSiblingAncestor, NotInSameCfg),
         "non-dataflow-wire-across-blocks": (ValueError,),
+        "order-port-as-wire": (ValueError,),
     }[kind]
 
 
@@ -305,6 +306,19 @@ def inject(prog, kind, sel):
             return None
         i, r, ci = c
         evs.insert(ci, {"e": "op", "r": r, "op": NOOP, "args": [{"n": i, "o": 0}], "mode": "add_op", "partial": True, "meta": None})
+        return _renumber(p, ci), ci
+    if kind == "order-port-as-wire":
+        # the state-order port of a sibling with value outputs, used as a value
+        cands = []
+        for i, ev in enumerate(evs):
+            if ev["e"] == "op" and ev["r"] in R and R[ev["r"]]["sub"] == "D" and ref.ref_sig(ev["op"])["outs"] and close_index(p, ev["r"]) is not None and close_index(p, ev["r"]) > i:
+                cands.append((i, ev["r"]))
+        c = pick(cands)
+        if c is None:
+            return None
+        i, r = c
+        ci = close_index(p, r)
+        evs.insert(ci, {"e": "op", "r": r, "op": NOOP, "args": [{"n": i, "o": -1}], "mode": "add_op", "partial": True, "meta": None})
         return _renumber(p, ci), ci
     if kind == "root-as-wire":
         # the root node of the HUGR itself used as a wire: it is nobody's sibling
@@ -609,6 +623,17 @@ def check(case) -> list[Fail]:
                 raise
             except Exception:  # noqa: BLE001 - refused again
                 pass
+    if isinstance(at, int) and "res" in seen and kind == "exit-row-mismatch" and at < len(p2["events"]):
+        ev3 = p2["events"][at]
+        if ev3.get("e") == "branch" and ev3.get("dst") == "exit":
+            cb = seen["res"].builders.get(ev3["c"])
+            sb_ = seen["res"].builders.get(ev3["src"]["b"])
+            if cb is not None and sb_ is not None:
+                try:
+                    cb.branch(sb_.parent_node.out(ev3["src"]["i"]), cb.exit)
+                    return [Fail("silently-accepted", f"{kind}:accepted-at-the-second-attempt", f"injection at event {pos}: {type(exc).__name__} the first time, nothing the second time")]
+                except Exception:  # noqa: BLE001 - refused again
+                    pass
     # every builder is a context manager: the error must also leave the `with` blocks of the builders that
     # enclose the offending call (an __exit__ returning a true value would swallow it)
     if isinstance(at, int) and "res" in seen and at < len(p2["events"]):
@@ -695,7 +720,7 @@ def targeted(kinds, roots, call_bias=False):
 
 SUBS = [
     Sub("injected", check, fuzz_runs=800, strategy=strategy, nontrivial=nontrivial, classes=classes, n_quick=400, n_thorough=3000, sample_ok=lambda c: len(json.dumps(c)) < 2500),
-    Sub("cfg-injections", check, strategy=targeted(["outside-cfg-wire", "exit-row-mismatch", "non-dataflow-wire-across-blocks", "root-as-wire"], ("cfg", "dfg", "function")), nontrivial=nontrivial, classes=classes, n_quick=150, n_thorough=800,
+    Sub("cfg-injections", check, strategy=targeted(["outside-cfg-wire", "exit-row-mismatch", "non-dataflow-wire-across-blocks", "root-as-wire", "order-port-as-wire"], ("cfg", "dfg", "function")), nontrivial=nontrivial, classes=classes, n_quick=150, n_thorough=800,
         sample_ok=lambda c: len(json.dumps(c)) < 2500),
     Sub("cond-injections", check, strategy=targeted(["case-outputs-disagree", "case-index-out-of-range", "case-built-twice", "cond-exit-unbuilt"], ("cond", "dfg", "function")), nontrivial=nontrivial,
         classes=classes, n_quick=150, n_thorough=800, sample_ok=lambda c: len(json.dumps(c)) < 2500),
